@@ -51,6 +51,9 @@ def sim_judge(params, k, o, label=None):
         bad.append(("listener-closed-on-reload" + at, "a listening socket was closed although the bind address did not change"))
     if k.create_socket_calls != 1:
         bad.append(("sockets-recreated-on-reload" + at, "create_sockets called %d times" % k.create_socket_calls))
+    r = c03.retire_order_violation(k)
+    if r:
+        bad.append(("retire:not-oldest-first" + at, r))
     hups = [i for i, t in enumerate(k.trace) if t[0] == "log" and "Hang up" in t[2]]
     if hups:
         last = hups[-1]
@@ -70,16 +73,23 @@ def sim_judge(params, k, o, label=None):
         if boot:
             return bad
         old_alive = sorted(live & pre)
+        fork_race = label in ("fork.return", "WORKERS.setitem")
         if old_alive:
-            # a TERM lost in a worker's boot window is only repeated while the pool is over its target: if the target
-            # was raised (TTIN) after the reload, the count matches again and the old worker is never asked again
-            raised = any(t[0] == "event" and t[1:3] == ("sig", "TTIN") for t in k.trace[k.trace.index(("event", "sig", "HUP")):]) if ("event", "sig", "HUP") in k.trace else False
-            bad.append(("old-generation-survives" + (":lost-term-then-ttin" if raised and params["term"] == "swallow1" else at),
-                        "workers %r forked before the last HUP are still alive after settling" % old_alive))
+            # manage_workers repeats TERM as long as the pool is over its target.  A pre-reload worker can only stay if the
+            # count matches again - which happens when its TERM was lost in its boot window and then the target was raised
+            # (TTIN) or a new worker died (a recorded finding) - or if the surplus is not retired at all (a violation).
+            surplus = len(tracked) > arb.num_workers
+            if not surplus:
+                bad.append(("old-generation-survives:count-matches", "workers %r forked before the last HUP are still alive after settling: the pool size equals the "
+                            "target (a TERM was lost in a boot window, or a new worker died at once), so the old worker is never asked to stop" % old_alive))
+            else:
+                bad.append(("old-generation-survives" + at, "workers %r forked before the last HUP are still alive after settling (tracked %d, target %d)" % (
+                    old_alive, len(tracked), arb.num_workers)))
         if tracked != live:
-            bad.append(("tracked-differs-from-live" + at, "WORKERS=%r live=%r" % (sorted(tracked), sorted(live))))
+            # (a worker dying between fork() and the WORKERS store is C03's recorded fork-bookkeeping race, seen from here)
+            bad.append((("fork-bookkeeping-race" if fork_race else "tracked-differs-from-live") + at, "WORKERS=%r live=%r" % (sorted(tracked), sorted(live))))
         ref = c03.reference_num_workers(params, k.trace)
-        if len(live - pre) != ref and not old_alive:
+        if len(live - pre) != ref and not old_alive and not (fork_race and tracked != live):
             bad.append(("new-generation-size" + at, "%d workers of the new generation, configured %d" % (len(live - pre), ref)))
         if arb.timeout != arb.cfg.timeout:
             bad.append(("stale-config" + at, "arbiter.timeout=%r cfg=%r" % (arb.timeout, arb.cfg.timeout)))
